@@ -48,7 +48,7 @@ func TestVerifC08Production(t *testing.T) {
 		vfRunMachine(t, vfCfg{
 			prop:       "C08",
 			blockSize:  1 << 26,
-			unit:       rapid.SampledFrom([]int{7, 64, 1000}).Draw(t, "unit"),
+			unit:       rapid.SampledFrom([]int{7, 64, 1000, 5000, 70000}).Draw(t, "unit"),
 			writers:    4,
 			names:      vfPlainNames,
 			settle:     true,
